@@ -511,7 +511,10 @@ func DrawHEIF(l *core.Lane, tiff []byte, surround bool) *HEIF {
 		h.Top = append(h.Top, Span{"free", s, len(out)})
 	}
 	s = len(out)
-	out = append(out, Box("mdat", imgData, item)...)
+	// the header search needs a 32-byte window at the signature: other item data follows the
+	// Exif item inside mdat (as in real files, where the coded image usually does)
+	trail := ScreenTIFF(l.Sub().Bytes(32 + l.Intn(64)))
+	out = append(out, Box("mdat", imgData, item, trail)...)
 	h.Top = append(h.Top, Span{"mdat", s, len(out)})
 	h.TIFFOff = exifOff + 10
 	if surround && l.Bool() {
